@@ -29,3 +29,28 @@ def chunkSize : Nat := OnosVerif.Generated.chunkSize
 def validateChunks (doc : List UInt8) : List (List UInt8) := chunks chunkSize doc
 
 end OnosVerif.Tree
+
+namespace OnosVerif.Tree
+
+/-- what the model plugin (the environment) does with one `ValidateConfigChunked` call. -/
+inductive PluginBehaviour
+  | openErr                 -- `p.Client.ValidateConfigChunked(ctx)` fails
+  | sendErr (k : Nat)       -- the k-th `sender.Send` (counted from 0) fails
+  | recvErr                 -- `sender.CloseAndRecv()` fails
+  | answer (valid : Bool)   -- the plugin answers `Valid = valid`
+deriving DecidableEq, Repr
+
+/-- outcome of `Validate`: nil, `errors.NewInvalid`, or another error. -/
+inductive VResult
+  | ok | invalid | err
+deriving DecidableEq, Repr
+
+/-- `(*ModelPluginInfo).Validate`: the result and the chunks the plugin received. -/
+def validate (n : Nat) (doc : List UInt8) : PluginBehaviour → VResult × List (List UInt8)
+  | .openErr => (.err, [])
+  | .sendErr k => if k < (chunks n doc).length then (.err, (chunks n doc).take k) else (.ok, chunks n doc)
+  | .recvErr => (.err, chunks n doc)
+  | .answer true => (.ok, chunks n doc)
+  | .answer false => (.invalid, chunks n doc)
+
+end OnosVerif.Tree
